@@ -1,6 +1,6 @@
 (* C02 - ForceFlush and Shutdown are complete, final (and always return: evidenced by the scheduled runs, not a theorem).
    Property theorems only; proofs are in Batch/Proofs*.v and Batch/Theorems.v. *)
-From V Require Import Batch.Model Batch.ProofsA Batch.ProofsB Batch.Theorems.
+From V Require Import Batch.Model Batch.ProofsA Batch.ProofsB Batch.Theorems Batch.Compose Batch.ComposeProofs.
 From Coq Require Import List Arith.
 Import ListNotations.
 
@@ -42,6 +42,16 @@ Print Assumptions c02_after_shutdown_calls_inert.
 Theorem c02_shutdown_is_final : forall s te s', accept s te = Some s' -> is_shut s = true -> is_shut s' = true.
 Proof. exact is_shut_stable. Qed.
 Print Assumptions c02_shutdown_is_final.
+
+(* provider level (TracerProvider / LoggerProvider / MeterProvider over any children, any call sequence) *)
+Theorem c02_compose_meets_spec : forall k cs ops, spec_compose k (length cs) (model k cs ops) = [].
+Proof. exact compose_meets_spec. Qed.
+Print Assumptions c02_compose_meets_spec.
+
+Theorem c02_provider_true_implies_children_true : forall k cs ops c r,
+  In c (model k cs ops) -> p_result c = Some r -> r = all_true (p_children c).
+Proof. exact provider_true_implies_children_true. Qed.
+Print Assumptions c02_provider_true_implies_children_true.
 
 Theorem c02_nonvacuous : exists s, run (init 1 1) demo_trace = Some s /\ In (2, 1, true) (fl_done s) /\ sh_done s <> [] /\
   dropped s = [12] /\ exported s = [[11]].
